@@ -97,4 +97,57 @@ Homomorphism(p, q) ==
   /\ REq(Den(PolyNeg(p)), RNeg(Den(p)))
 Preservation(p, q) ==
   (WellFormed(p) /\ WellFormed(q)) => WellFormed(PolyAdd(p, q)) /\ WellFormed(PolyMul(p, q)) /\ WellFormed(PolyNeg(p))
+
+(***************************************************************************)
+(* RationalPolynomial (polynomial.py:162-297): a pair [numer, denom] of     *)
+(* Polynomial representations, with the shortcuts of __add__ (equal         *)
+(* denominators; zero / one results) and __mul__ (zero / one operands and   *)
+(* results; removal of common factors when numerator and denominator are    *)
+(* single monomials), transcribed.                                           *)
+(***************************************************************************)
+RP(n, d) == [numer |-> n, denom |-> d]
+POne1 == <<<<<<1, 1>>>>>>                         \* [[1]]
+PolyIsOne(p) == Len(p) = 1 /\ Len(p[1]) = 1 /\ QEq(Coef(p[1]), <<1, 1>>) /\ Coef(p[1])[1] = Coef(p[1])[2]    \* args == [[1]]
+RatIsZero(r) == PolyIsZero(r.numer)              \* __eq__ with 0
+RatIsOne(r) == PolyIsOne(r.numer) /\ PolyIsOne(r.denom)
+RatBool(r) == PolyBool(r.numer)
+RatDen(r) == RDiv(Den(r.numer), Den(r.denom))
+
+RatAdd(a, b) ==
+  IF RatIsZero(b) THEN a ELSE IF RatIsZero(a) THEN b ELSE
+  LET same == Len(a.denom) = Len(b.denom) /\ a.denom = b.denom
+      nn == IF same THEN PolyAdd(a.numer, b.numer) ELSE PolyAdd(PolyMul(a.numer, b.denom), PolyMul(b.numer, a.denom))
+      nd == IF same THEN a.denom ELSE PolyMul(a.denom, b.denom)
+  IN  IF PolyIsZero(nn) THEN RP(<<>>, POne1)
+      ELSE IF Len(nn) = Len(nd) /\ nn = nd THEN RP(POne1, POne1)
+      ELSE RP(nn, nd)
+
+\* two-pointer removal of the common variables of two monomials (kept: the rest of each)
+RECURSIVE Cancel(_, _, _, _, _, _)
+Cancel(f1, f2, p1, p2, keep1, keep2) ==
+  IF p1 > Len(f1) /\ p2 > Len(f2) THEN <<keep1, keep2>>
+  ELSE IF p1 <= Len(f1) /\ p2 <= Len(f2) /\ f1[p1] = f2[p2] THEN Cancel(f1, f2, p1 + 1, p2 + 1, keep1, keep2)
+  ELSE IF p2 > Len(f2) \/ (p1 <= Len(f1) /\ f1[p1] < f2[p2]) THEN Cancel(f1, f2, p1 + 1, p2, Append(keep1, f1[p1]), keep2)
+  ELSE Cancel(f1, f2, p1, p2 + 1, keep1, Append(keep2, f2[p2]))
+
+RatMul(a, b) ==
+  IF RatIsZero(a) THEN a ELSE IF RatIsZero(b) THEN b ELSE IF RatIsOne(b) THEN a ELSE IF RatIsOne(a) THEN b ELSE
+  LET numer == PolyMul(a.numer, b.numer)
+      denom == PolyMul(a.denom, b.denom)
+  IN  IF PolyIsZero(numer) THEN RP(<<<<<<0, 1>>>>>>, POne1)
+      ELSE IF Len(numer) = Len(denom) /\ numer = denom THEN RP(POne1, POne1)
+      ELSE IF Len(numer) = 1 /\ Len(denom) = 1 THEN
+           LET c == Cancel(numer[1], denom[1], 2, 2, <<Coef(numer[1])>>, <<Coef(denom[1])>>) IN RP(<<c[1]>>, <<c[2]>>)
+      ELSE RP(numer, denom)
+RatNeg(a) == RP(PolyNeg(a.numer), a.denom)
+RatInv(a) == RP(a.denom, a.numer)              \* (zero is returned as the number 0 by the code; not modelled)
+
+RatHomomorphism(a, b) ==
+  /\ REq(RatDen(RatAdd(a, b)), RAdd(RatDen(a), RatDen(b)))
+  /\ REq(RatDen(RatMul(a, b)), RMul(RatDen(a), RatDen(b)))
+  /\ REq(RatDen(RatNeg(a)), RNeg(RatDen(a)))
+  /\ (~RatIsZero(a) => REq(RatDen(RatInv(a)), RInv(RatDen(a))))
+RatZeroTests(r) == /\ RatIsZero(r) <=> RIsZero(RatDen(r))
+                   /\ RatBool(r) <=> ~RIsZero(RatDen(r))
+RatWellFormed(r) == WellFormed(r.numer) /\ WellFormed(r.denom) /\ ~PolyIsZero(r.denom)
 =============================================================================
